@@ -76,32 +76,44 @@ def _parse_status(path: str) -> Dict[str, Any]:
 def cov_fuzz_many(module: str, target: str, seeds: Sequence[int], runs: int, max_len: int, instrument: List[str],
                   preimport: List[str], extra: Optional[Dict[str, Any]] = None, budget_s: float = 0.0,
                   pad_len: int = 0) -> Report:
-    """Run len(seeds) single-process campaigns in parallel; merged Report with per-shard counters under
-    rep.extra["covfuzz"][target].  `budget_s` (per child, 0 = none): on expiry the child stops and reports."""
+    """One target, len(seeds) single-process campaigns in parallel (see cov_fuzz_jobs)."""
+    return cov_fuzz_jobs(module, [{"target": target, "seeds": list(seeds), "runs": runs, "max_len": max_len,
+                                   "pad_len": pad_len, "extra": extra or {}, "budget_s": budget_s}],
+                         instrument, preimport)
+
+
+def cov_fuzz_jobs(module: str, jobs: List[Dict[str, Any]], instrument: List[str], preimport: List[str]) -> Report:
+    """Run every (job, seed) campaign as its own child process, all in parallel (keep the total <= 16); merged Report
+    with per-target summaries and per-shard counters under rep.extra["covfuzz"][target].  job = {target, seeds, runs,
+    max_len, pad_len, extra, budget_s}; `budget_s` (per child, 0 = none): on expiry the child stops and reports."""
     if not available():
         raise HarnessError("atheris is not importable (run ./setup.sh; PYTHONPATH must end in <verif>/.deps)")
     tmp = tempfile.mkdtemp(prefix="vp-covfuzz-")
-    procs = []
+    procs: List[Any] = []
     t0 = time.time()
     try:
-        for i, seed in enumerate(seeds):
-            d = os.path.join(tmp, f"s{i}")
-            os.makedirs(os.path.join(d, "corpus"))
-            task = {"module": module, "target": target, "seed": int(seed) & 0x7FFFFFFF, "runs": int(runs),
-                    "max_len": int(max_len), "pad_len": int(pad_len or max_len), "instrument": list(instrument),
-                    "preimport": list(preimport), "extra": extra or {}, "budget_s": float(budget_s),
-                    "corpus": os.path.join(d, "corpus"), "result": os.path.join(d, "result.pkl")}
-            with open(os.path.join(d, "task.pkl"), "wb") as fh:
-                pickle.dump(task, fh)
-            err = open(os.path.join(d, "stderr.txt"), "wb")
-            p = subprocess.Popen([sys.executable, "-m", "vp_harness.covfuzz_child", os.path.join(d, "task.pkl")],
-                                 stdin=subprocess.DEVNULL, stdout=err, stderr=err, cwd=d, env=dict(os.environ))
-            procs.append((i, d, p, err, task))
-        hard = (budget_s + 180.0) if budget_s else 3600.0
+        for j, job in enumerate(jobs):
+            for i, seed in enumerate(job["seeds"]):
+                d = os.path.join(tmp, f"j{j}s{i}")
+                os.makedirs(os.path.join(d, "corpus"))
+                task = {"module": module, "target": job["target"], "seed": int(seed) & 0x7FFFFFFF,
+                        "runs": int(job["runs"]), "max_len": int(job["max_len"]),
+                        "pad_len": int(job.get("pad_len") or job["max_len"]), "instrument": list(instrument),
+                        "preimport": list(preimport), "extra": job.get("extra") or {},
+                        "budget_s": float(job.get("budget_s") or 0.0),
+                        "corpus": os.path.join(d, "corpus"), "result": os.path.join(d, "result.pkl")}
+                with open(os.path.join(d, "task.pkl"), "wb") as fh:
+                    pickle.dump(task, fh)
+                err = open(os.path.join(d, "stderr.txt"), "wb")
+                p = subprocess.Popen([sys.executable, "-m", "vp_harness.covfuzz_child", os.path.join(d, "task.pkl")],
+                                     stdin=subprocess.DEVNULL, stdout=err, stderr=err, cwd=d, env=dict(os.environ))
+                procs.append((j, i, d, p, err, task))
+        max_budget = max(float(job.get("budget_s") or 0.0) for job in jobs)
+        hard = (max_budget + 180.0) if max_budget else 3600.0
         rep = Report()
-        shards: List[Dict[str, Any]] = []
-        instrumented: List[str] = []
-        for i, d, p, err, task in procs:
+        by_target: Dict[str, Dict[str, Any]] = {}
+        for j, i, d, p, err, task in procs:
+            target = task["target"]
             try:
                 rc = p.wait(timeout=max(5.0, hard - (time.time() - t0)))
             except subprocess.TimeoutExpired:
@@ -122,34 +134,41 @@ def cov_fuzz_many(module: str, target: str, seeds: Sequence[int], runs: int, max
                 raise HarnessError(f"covfuzz child {target}#{i}: {res['error'][-1200:]}")
             st = _parse_status(os.path.join(d, "stderr.txt"))
             child_rep: Report = res["report"]
-            shards.append({"seed": task["seed"], "calls": res["calls"], "executed": res["executed"],
-                           "rejected_by_hypothesis": res["calls"] - res["executed"], "cov": st["cov"], "ft": st["ft"],
-                           "corpus": st["corpus"], "new_coverage_events": st["new_events"],
-                           "nontrivial": len(child_rep.nontrivial), "wall_s": round(res["wall_s"], 2),
-                           "exec_per_s": round(res["calls"] / max(res["wall_s"], 1e-6), 1),
-                           "stopped": res["stopped"]})
-            instrumented = res.get("instrumented", instrumented)
+            summ = by_target.setdefault(target, {
+                "driver": "atheris 3.1 / libFuzzer, single process per shard, empty corpus, "
+                          f"-max_len={task['max_len']}, input padded to {task['pad_len']} bytes with a per-shard "
+                          "pseudo-random pad",
+                "instrumented_modules": res.get("instrumented", []), "runs_per_shard": task["runs"], "calls": 0,
+                "cases_executed": 0, "rejected_by_hypothesis": 0, "distinct_nontrivial": 0, "shards": [],
+                "_nt": set()})
+            summ["shards"].append({"seed": task["seed"], "calls": res["calls"], "executed": res["executed"],
+                                   "rejected_by_hypothesis": res["calls"] - res["executed"], "cov": st["cov"],
+                                   "ft": st["ft"], "corpus": st["corpus"], "new_coverage_events": st["new_events"],
+                                   "nontrivial": len(child_rep.nontrivial), "wall_s": round(res["wall_s"], 2),
+                                   "setup_s": round(res["setup_s"], 2),
+                                   "exec_per_s": round(res["calls"] / max(res["wall_s"], 1e-6), 1),
+                                   "stopped": res["stopped"]})
+            summ["calls"] += res["calls"]
+            summ["cases_executed"] += res["executed"]
+            summ["rejected_by_hypothesis"] += res["calls"] - res["executed"]
+            summ["_nt"] |= child_rep.nontrivial
             if res["stopped"] == "budget":
-                child_rep.inconclusive.append(f"covfuzz {target}: time budget reached in a shard before {runs} runs")
+                child_rep.inconclusive.append(f"covfuzz {target}: time budget reached in a shard before "
+                                              f"{task['runs']} runs")
             rep.merge(child_rep)
-        calls = sum(s["calls"] for s in shards)
-        rejected = sum(s["rejected_by_hypothesis"] for s in shards)
+        for target, summ in by_target.items():
+            summ["distinct_nontrivial"] = len(summ.pop("_nt"))
+            calls, rejected = summ["calls"], summ["rejected_by_hypothesis"]
+            if calls >= 200 and rejected / calls > 0.05:
+                raise HarnessError(f"covfuzz {target}: Hypothesis rejected {rejected} of {calls} fuzzer inputs (> 5 %)")
         rep.extra = dict(rep.extra)
-        summary = {"driver": "atheris 3.1 / libFuzzer, single process per shard, empty corpus, "
-                             f"-max_len={max_len}, input padded to {pad_len or max_len} bytes with a per-shard "
-                             "pseudo-random pad",
-                   "instrumented_modules": instrumented, "runs_per_shard": runs, "calls": calls,
-                   "cases_executed": calls - rejected, "rejected_by_hypothesis": rejected,
-                   "distinct_nontrivial": len(rep.nontrivial), "shards": shards,
-                   "wall_s": round(time.time() - t0, 2)}
-        if calls and rejected / calls > 0.05 and calls >= 200:
-            raise HarnessError(f"covfuzz {target}: Hypothesis rejected {rejected} of {calls} fuzzer inputs (> 5 %)")
-        rep.extra["covfuzz"] = {target: summary}
+        rep.extra["covfuzz"] = by_target
+        rep.extra["covfuzz_wall_s"] = round(time.time() - t0, 2)
         if ASSUMPTION not in rep.assumptions:
             rep.assumptions.append(ASSUMPTION)
         return rep
     finally:
-        for _i, _d, p, err, _t in procs:
+        for _j, _i, _d, p, err, _t in procs:
             if p.poll() is None:
                 p.kill()
             try:
